@@ -92,5 +92,31 @@ def einsum (descrs : List (List EAxis)) (nout : Nat) (args : List (Arr Rat)) : A
   ⟨(List.range nout).map fun k => axisLen tbl (.elem k),
    fun i => sumL ((allIdx redShape).map fun r => einsumTerm tbl descrs args i r)⟩
 
+/-! ### `rewrite_einsums_with_no_broadcasts` for one einsum
+    (`EinsumWithNoBroadcastsRewriter.map_einsum` / `_squeeze_axes`) -/
+
+/-- the (axis, length) pairs of an operand that are NOT broadcast-unit axes -/
+def keptPairs (tbl : List (EAxis × Nat)) (d : List EAxis) (s : Shape) : List (EAxis × Nat) :=
+  (d.zip s).filter fun p => p.2 = axisLen tbl p.1
+
+/-- the index into the original operand: `0` on squeezed axes (mask entry
+    `false`), the next entry of the squeezed operand's index otherwise -/
+def expandIdx : List Bool → Idx → Idx
+  | [], _ => []
+  | true :: m, j => j.headD 0 :: expandIdx m j.tail
+  | false :: m, j => 0 :: expandIdx m j
+
+/-- `_squeeze_axes`: `a[..., 0, ...]` with `0` on the broadcast-unit axes -/
+def squeezeOperand (tbl : List (EAxis × Nat)) (d : List EAxis) (a : Arr Rat) : Arr Rat :=
+  ⟨(keptPairs tbl d a.shape).map (·.2),
+   fun j => a.get (expandIdx ((d.zip a.shape).map fun p => decide (p.2 = axisLen tbl p.1)) j)⟩
+
+/-- the rewritten access descriptors and operands -/
+def noBroadcastEinsum (descrs : List (List EAxis)) (args : List (Arr Rat)) :
+    List (List EAxis) × List (Arr Rat) :=
+  let tbl := axisLenTable descrs (args.map (·.shape))
+  ((descrs.zip args).map (fun p => (keptPairs tbl p.1 p.2.shape).map (·.1)),
+   (descrs.zip args).map (fun p => squeezeOperand tbl p.1 p.2))
+
 end Spec
 end Pt
